@@ -119,9 +119,15 @@ def classify(m, pas, q):
     aggs = {x["name"]: x["agg"] for x in m["measures"]}
     if any(aggs.get(r.split(".")[1]) == "avg" for r in q["metrics"]):
         return "F9-avg-served-from-rollup"
-    if any(c.split(".")[-1] == "created" for f in q["filters"] for c in c01.filter_cols(f)):
+    def aligned(f):
+        # `created >= B` / `created < B` with B the start of 2024 (a Monday): B starts a bucket at every granularity, and
+        # these two comparisons commute with truncation
+        return (f.get("k") == "bin" and f.get("op") in ("ge", "lt") and f["a"].get("k") == "col" and f["b"].get("k") == "lit"
+                and isinstance(f["b"].get("v"), dict) and f["b"]["v"].get("v") == 1704067200)
+    if any(c.split(".")[-1] == "created" for f in q["filters"] for c in c01.filter_cols(f)) and not all(
+            aligned(f) for f in q["filters"] if any(c.split(".")[-1] == "created" for c in c01.filter_cols(f))):
         return "F31-time-filter-not-bucket-aligned"
-    if any("created" in pa["dimensions"] for pa in pas):
+    if any("created" in pa["dimensions"] for pa in pas) and any(d.split(".")[-1] == "created" for d in q["dims"]):
         return "F33-time-dimension-listed-as-plain-dimension"
     return None
 
@@ -182,7 +188,7 @@ def sweep(ck, rng, n, stats, directed=False):
         for _ in range(5):
             q = gen_query(rng, m, pas)
             if directed:
-                q["dims"] = [d for d in q["dims"] if "created" not in d] + [f"{m['name']}.created__{rng.choice(S.GRANS)}"]
+                q["dims"] = [d for d in q["dims"] if "created" not in d] + [f"{m['name']}.created__{g}" for g in rng.sample(S.GRANS, rng.choice([1, 2, 2, 3]))]
                 q["filters"], q["order_by"], q["limit"], q["offset"] = [f for f in q["filters"] if "created" not in canon(f)], [], None, None
             r1 = S.run_real(m, table, q, use_preaggregations=True, layer=layer); r1.pop("layer")
             r0 = S.run_real(m, table, q, use_preaggregations=False, layer=layer); r0.pop("layer")
@@ -289,7 +295,7 @@ def run(ck: Check):
         ck.obligation("translator Gen/Compat.lean (36 entries of _is_granularity_compatible)", True, "regenerated")
     except Exception as e:  # fail closed
         ck.obligation("translator Gen/Compat.lean", False, f"untranslatable: {e!r}")
-    ck.prove("SideVerif.Properties.C08", ["SideVerif.Proofs.Reagg"])
+    ck.prove("SideVerif.Properties.C08", ["SideVerif.Proofs.Reagg", "SideVerif.Proofs.RoutedGlue"])
     stats = Counter()
     thorough = ck.tier == "thorough"
     disagree = sweep(ck, ck.rng, 400 if thorough else 60, stats)
